@@ -741,7 +741,24 @@ struct InflateSession {
                 bool over = false;
                 for (size_t i = 0; i < ops.a.size() && !over; i++) {
                         const Json &op = ops.a[i];
-                        if (!call((uint32_t) ((uint64_t) op.ai(0) % (1u << 24)), (uint32_t) ((uint64_t) op.ai(1) % (1u << 24)), (int) op.ai(2), false))
+                        uint32_t o_feed = (uint32_t) ((uint64_t) op.ai(0) % (1u << 24)), o_out = (uint32_t) ((uint64_t) op.ai(1) % (1u << 24));
+                        int o_flags = (int) op.ai(2);
+                        if (o_flags & 64) {
+                                // the output space of this call ends 1-3 bytes before the end of the data (a fault placed right before completion)
+                                size_t k = 1 + o_out % 3;
+                                if (plain.size() > delivered.size() + k) {
+                                        o_out = (uint32_t) (plain.size() - delivered.size() - k);
+                                        COUNT("io.sink_ends_just_before_end_of_data");
+                                }
+                        }
+                        if (o_flags & 128) { // likewise the input of this call ends 1-8 bytes before the end of the stream
+                                size_t k = 1 + o_feed % 8;
+                                if (bytes.size() > fed + k) {
+                                        o_feed = (uint32_t) (bytes.size() - fed - k);
+                                        COUNT("io.source_ends_just_before_end_of_stream");
+                                }
+                        }
+                        if (!call(o_feed, o_out, o_flags, false))
                                 over = true;
                         if (rr.violated())
                                 return;
@@ -1065,7 +1082,7 @@ static Json gen_inflate(Rng &r0, const std::string &focus, int tier)
         for (uint32_t i = 0; i < nops; i++) {
                 uint32_t feed = gen_chunk(rio, rio.chance(1, 4) ? (int) rio.below(6) : im, big);
                 uint32_t out = gen_chunk(rio, rio.chance(1, 4) ? (int) rio.below(6) : om, big + 64);
-                int flags = (discipline & 1 ? 1 : 0) | (discipline & 2 ? 2 : 0) | (rio.chance(1, 10) ? 4 : 0) | (rio.chance(1, 4) ? 16 : 0) | (rio.chance(1, 4) ? 32 : 0);
+                int flags = (discipline & 1 ? 1 : 0) | (discipline & 2 ? 2 : 0) | (rio.chance(1, 10) ? 4 : 0) | (rio.chance(1, 4) ? 16 : 0) | (rio.chance(1, 4) ? 32 : 0) | (rio.chance(1, 12) ? 64 : 0) | (rio.chance(1, 12) ? 128 : 0);
                 Json o = Json::arr();
                 o.push(feed).push(out).push(flags);
                 ops.push(o);
@@ -1076,7 +1093,8 @@ static Json gen_inflate(Rng &r0, const std::string &focus, int tier)
                 uint32_t k = rio.chance(1, 2) ? (uint32_t) rio.below(64) : rio.chance(1, 2) ? (uint32_t) rio.below(700) : (uint32_t) rio.logsize(big);
                 uint32_t o1 = rio.chance(1, 2) ? big * 2 + 4096 : (uint32_t) rio.logsize(big);
                 Json o = Json::arr();
-                o.push(k).push(o1).push(0);
+                bool whole = rio.chance(1, 3); // all the input at once, the sink ending just before the end of the data
+                o.push(whole ? big * 2 + 4096 : k).push(o1).push(whole ? 64 : rio.chance(1, 4) ? 64 : 0);
                 ops.push(o);
         }
         p.set("ops", ops);
